@@ -19,8 +19,10 @@ def names(src):
     return {n.id for n in ast.walk(parse(src)) if isinstance(n, ast.Name)}
 
 
-def _div(a, b, strict):
+def _div(a, b, strict, info=None):
     a_, b_ = np.broadcast_arrays(np.asarray(a, dtype=float), np.asarray(b, dtype=float))
+    if info is not None and info.get("inexact") and np.any((np.abs(b_) <= 1e-9 * max(1.0, info.get("scale", 1.0))) & (a_ != 0)):
+        info["fragile"] = True  # a denominator that may be zero, or have either sign, one unit in the last place of its operands away
     if strict and np.any((b_ == 0) & (a_ != 0)):
         raise DontCare()
     out = np.zeros(a_.shape)
@@ -35,6 +37,11 @@ def _near_not_at(x, info):
     difference between two correct floating-point evaluations can then land on either side."""
     x = np.abs(np.asarray(x, dtype=float))
     tol = 1e-9 * max(1.0, info.get("scale", 1.0))
+    if info.get("inexact"):
+        # an operand went through pow / exp / sin / cos / ln, which are not correctly rounded and differ in the last bit between
+        # scalar (libm) and array (numpy) evaluation (10**-1 is 0.1, numpy.power(10.0, -1.0) is 0.09999999999999999): then even
+        # a distance that looks like exactly zero here may be one unit in the last place there
+        return bool(np.any(x <= tol))
     return bool(np.any((x > 0) & (x <= tol)))
 
 
@@ -96,11 +103,13 @@ def _evaluate_inner(node, env, strict, info):
             if isinstance(node.op, ast.Mult):
                 return a * b
             if isinstance(node.op, ast.Div):
-                return _div(a, b, strict)
+                return _div(a, b, strict, info)
             if isinstance(node.op, ast.Pow):
                 a_, b_ = np.broadcast_arrays(np.asarray(a, dtype=float), np.asarray(b, dtype=float))
                 if strict and (np.any((a_ < 0) & (b_ != np.floor(b_))) or np.any((a_ == 0) & (b_ < 0))):
                     raise DontCare()
+                if info is not None:
+                    info["inexact"] = True
                 return np.power(a, b)
             if isinstance(node.op, ast.FloorDiv):
                 if np.any(np.asarray(b) == 0):
@@ -150,6 +159,8 @@ def _evaluate_inner(node, env, strict, info):
                     out = np.minimum(out, a)
                 return out
             if name == "exp":
+                if info is not None:
+                    info["inexact"] = True
                 return np.exp(args[0])
             if name == "sqrt":
                 if strict and np.any(np.asarray(args[0]) < 0):
@@ -160,14 +171,20 @@ def _evaluate_inner(node, env, strict, info):
                     info["fragile"] = True
                 return np.floor(args[0])
             if name == "cos":
+                if info is not None:
+                    info["inexact"] = True
                 return np.cos(args[0])
             if name == "sin":
+                if info is not None:
+                    info["inexact"] = True
                 return np.sin(args[0])
             if name == "ln":
                 if strict and np.any(np.asarray(args[0]) <= 0):
                     raise DontCare()
+                if info is not None:
+                    info["inexact"] = True
                 return np.log(args[0])
             if name == "sdiv":
-                return _div(args[0], args[1], strict)
+                return _div(args[0], args[1], strict, info)
         raise DontCare()
     raise DontCare()
